@@ -55,25 +55,27 @@ Qed.
 Lemma sort_idem l : sort_pairs (sort_pairs l) = sort_pairs l.
 Proof. apply sort_id, sort_sorted. Qed.
 
-Lemma norm_func_defs f : func_defs (norm_func f) = func_defs f.
+Lemma norm_func_defs c f : func_defs (norm_func c f) = func_defs f.
 Proof.
   unfold func_defs, func_instrs, norm_func. cbn [f_blocks]. rewrite flat_map_concat_map, map_map. cbn [b_ins].
   rewrite <- flat_map_concat_map. unfold instrs_defs. rewrite !flat_map_concat_map, !concat_map, !map_map.
   f_equal. f_equal. apply map_ext. intros k. rewrite !map_map. apply map_ext. intros i. now rewrite norm_def.
 Qed.
-Lemma norm_ref_name f r : ref_name (norm_func f) r = ref_name f r.
+Lemma norm_ref_name c f r : ref_name (norm_func c f) r = ref_name f r.
 Proof. destruct r; cbn [ref_name]; try reflexivity. unfold find_def. now rewrite norm_func_defs. Qed.
-Lemma norm_block_name f b : block_name (norm_func f) b = block_name f b.
+Lemma norm_block_name c f b : block_name (norm_func c f) b = block_name f b.
 Proof.
   unfold block_name, find_block, norm_func. cbn [f_blocks]. induction (f_blocks f) as [|k l IH]; [reflexivity|].
   cbn [map find b_id]. destruct (Pos.eqb (b_id k) b); [reflexivity|exact IH].
 Qed.
-Lemma erase_norm_instr fr f i : erase_instr fr (norm_func f) (norm_instr f i) = erase_instr fr f i.
+Lemma erase_norm_instr fr c f i : erase_instr fr c (norm_func c f) (norm_instr c f i) = erase_instr fr c f i.
 Proof.
   destruct i; cbn [norm_instr erase_instr]; rewrite ?norm_ref_name, ?norm_block_name; try reflexivity.
-  - f_equal. change (fun p : bid * vref => (block_name (norm_func f) (fst p), ref_name (norm_func f) (snd p))) with (pkey (norm_func f)).
+  - destruct (fx_volatile c); reflexivity.
+  - destruct (fx_volatile c); reflexivity.
+  - f_equal. change (fun p : bid * vref => (block_name (norm_func c f) (fst p), ref_name (norm_func c f) (snd p))) with (pkey (norm_func c f)).
     change (fun p : bid * vref => (block_name f (fst p), ref_name f (snd p))) with (pkey f).
-    assert (E : forall l, map (pkey (norm_func f)) l = map (pkey f) l).
+    assert (E : forall l, map (pkey (norm_func c f)) l = map (pkey f) l).
     { intros l. apply map_ext. intros p. unfold pkey. now rewrite norm_ref_name, norm_block_name. }
     rewrite E, <- sort_key. apply sort_idem.
   - f_equal. apply map_ext. intros a. apply norm_ref_name.
@@ -85,7 +87,7 @@ Proof.
   - rewrite map_map. apply map_ext. intros g. f_equal. unfold erase_var, norm_var. cbn. destruct (fx_init c); reflexivity.
   - rewrite map_map. apply map_ext. intros f. f_equal. unfold erase_func. cbn [norm_func f_binding f_ret f_name f_params f_blocks].
     f_equal. rewrite map_map. apply map_ext. intros k. unfold erase_block. cbn [b_name b_ins]. f_equal.
-    rewrite map_map. apply map_ext. intros i. apply (erase_norm_instr fr f i).
+    rewrite map_map. apply map_ext. intros i. apply (erase_norm_instr fr c f i).
 Qed.
 
 (* ---- the whole reader on the characters of a printable module *)
